@@ -226,9 +226,9 @@ CASES_TEMPLATE = """%(header)s
 Definition cases : list (nat * (%(tin)s * %(tobs)s)) := [
 %(body)s
 ].
-Definition disagree := map fst (filter (fun c => negb (%(eqb)s (%(model)s (fst (snd c))) (snd (snd c)))) cases).
-Definition violate := map fst (filter (fun c => negb (%(prop)s (fst (snd c)) (snd (snd c)))) cases).
-Definition nontrivial := length (filter (fun c => %(nontriv)s (fst (snd c)) (snd (snd c))) cases).
+Definition disagree := map fst (List.filter (fun c => negb (%(eqb)s (%(model)s (fst (snd c))) (snd (snd c)))) cases).
+Definition violate := map fst (List.filter (fun c => negb (%(prop)s (fst (snd c)) (snd (snd c)))) cases).
+Definition nontrivial := length (List.filter (fun c => %(nontriv)s (fst (snd c)) (snd (snd c))) cases).
 Eval vm_compute in (length cases, disagree, violate, nontrivial).
 """
 
